@@ -100,6 +100,11 @@ pub mod probe {
         pub fn sub(_env: Env, a: i128, b: i128) -> i128 {
             a - b
         }
+        /// the largest arity a contract function can have: returns its arguments in order
+        #[allow(clippy::too_many_arguments)]
+        pub fn ten(env: Env, a0: Val, a1: Val, a2: Val, a3: Val, a4: Val, a5: Val, a6: Val, a7: Val, a8: Val, a9: Val) -> soroban_sdk::Vec<Val> {
+            soroban_sdk::Vec::from_array(&env, [a0, a1, a2, a3, a4, a5, a6, a7, a8, a9])
+        }
         pub fn record(env: Env, n: u32, tag: Bytes) -> u32 {
             let c: u32 = env.storage().instance().get(&Symbol::new(&env, "count")).unwrap_or(0);
             env.storage().instance().set(&Symbol::new(&env, "count"), &(c + 1));
